@@ -117,3 +117,14 @@ Theorem C05_http_no_blocked_receive : forall rs b0 e0 s rd dn lg,
   Grpchan.model.HttpClient.pCR s = None.
 Proof. exact Grpchan.proofs.HttpLive.no_blocked_receive. Qed.
 Print Assumptions C05_http_no_blocked_receive.
+
+(* the verdicts of the correspondence check never come from running out of exploration fuel *)
+Theorem C05_full_stream_exploration_fuel_suffices : forall rs s acc,
+  Grpchan.proofs.StreamInv.reachable rs s -> ~ In None (Grpchan.model.InprocStream.explore 60 s acc).
+Proof. exact Grpchan.proofs.StreamLive.exploration_never_runs_out_of_fuel. Qed.
+Print Assumptions C05_full_stream_exploration_fuel_suffices.
+
+Theorem C05_http_exploration_fuel_suffices : forall s acc,
+  (length (Grpchan.model.HttpClient.body s) <= 10)%nat -> ~ In None (Grpchan.model.HttpClient.explore 40 s acc).
+Proof. exact Grpchan.proofs.HttpLive.exploration_never_runs_out_of_fuel. Qed.
+Print Assumptions C05_http_exploration_fuel_suffices.
